@@ -377,6 +377,23 @@ class Export(object):
                 # original dataset, we also create a new basin that
                 # refers to the original dataset itself.
                 basin_list = [bn.as_dict() for bn in ds.basins]
+                if ds.format == "hierarchy":
+                    # avoid circular imports
+                    from .fmt_hierarchy import map_indices_child2root
+                    # The basins of a hierarchy child are the basins of its
+                    # root parent. They are defined for the events of the
+                    # root parent and have to be mapped to the events of
+                    # the child.
+                    root_map = map_indices_child2root(
+                        child=ds,
+                        child_indices=np.arange(len(ds))
+                        )
+                    for bn_dict in basin_list:
+                        if bn_dict["basin_map"] is None:
+                            bn_dict["basin_map"] = root_map
+                        else:
+                            bn_dict["basin_map"] = \
+                                bn_dict["basin_map"][root_map]
                 # In addition to the upstream basins, also store a reference
                 # to the original file from which the export was done.
                 if ds.format in get_basin_classes():
